@@ -130,3 +130,24 @@ Definition table_acyclic (t : list (Z * Z)) : bool :=
 
 Example walk_ex : walk (fun x => if x =? 2 then Some 1 else None) 5 (Some 2) 1 = Some true.
 Proof. reflexivity. Qed.
+
+(* ---- specification vocabulary ---- *)
+(* x is a proper descendant of z: z is reached from x by following >= 1 parent pointers *)
+Inductive reach (par : Z -> option Z) : Z -> Z -> Prop :=
+| reach1 x y : par x = Some y -> reach par x y
+| reachS x y z : par x = Some y -> reach par y z -> reach par x z.
+
+Definition acyclic (par : Z -> option Z) : Prop := forall x, ~ reach par x x.
+
+(* every parent edge stays inside the set of created stream objects *)
+Definition closed_in (nodes : list Z) (par : Z -> option Z) : Prop :=
+  forall x y, par x = Some y -> In x nodes /\ In y nodes.
+
+(* state invariant: edges closed in nodes, open streams are nodes, no stream is its own ancestor *)
+Definition wfp (s : pst) : Prop :=
+  closed_in (nodes s) (par s) /\ incl (opn s) (nodes s) /\ acyclic (par s).
+
+(* states reachable from the empty connection by any history of operations *)
+Inductive preach : pst -> Prop :=
+| preach0 : preach pst0
+| preachS s o s' : preach s -> pstep s o = Some s' -> preach s'.
